@@ -28,7 +28,7 @@ claimed = {
    note="Unique tokens make the history unambiguous, so the scan is exact for the histories produced; interleavings are sampled (vhook delays at send.afterRegister/afterWrite, recv.beforeDispatch). The genuine (nil,nil) defect it found is repaired (fix: commit).",
    technique="offline history checker over call/return + peer frame logs (ownership, exactly-once, order) under the race detector with delay injection"),
  "C07": dict(level=F,
-   text="Complete product of 9 not-selected situations (incl. after an orphan Select.rsp status 0) x 8 data-send entry points x 2 roles on real connections (error class, exactly one counted drop, nothing on the wire, control traffic unaffected, inbound data answered Reject(4) with echoed ids and not delivered); a racing variant with the peer toggling Deselect/Select and the write-lock seam forcing the write-boundary window, decided by conservation; a deterministic one-send window scenario (a send parked at the write-lock seam while the link is closed / separated / deselected by the peer must not put data on a not-selected link); and every 1-cut segmentation of select + pipelined data in both roles. Race build." + HELD,
+   text="Complete product of 10 not-selected situations (incl. after an orphan Select.rsp status 0, and deselected by a Deselect.req the peer wrote in one segment with its Select frame) x 8 data-send entry points x 2 roles on real connections (error class, exactly one counted drop, nothing on the wire, control traffic unaffected, inbound data answered Reject(4) with echoed ids and not delivered); a racing variant with the peer toggling Deselect/Select and the write-lock seam forcing the write-boundary window, decided by conservation; a deterministic one-send window scenario (a send parked at the write-lock seam while the link is closed / separated / deselected by the peer must not put data on a not-selected link); and every 1-cut segmentation of select + pipelined data in both roles. Race build." + HELD,
    note="The enumerated axes are complete; timing inside each case is sampled (vhook delays). 'Connecting' is modelled as refused port (active) / no peer (passive).",
    technique="enumerated situation x API product with wire/peer/metric observers; conservation monitor under racing select/deselect; exhaustive cut-point segmentation"),
  "C08": dict(level=E,
